@@ -15,7 +15,8 @@
         open transaction;
     (b) every desired table is creatable (CREATE TABLE accepted by the engine), has no autoindex-named
         index, and *itself* survives CREATE + inspect without a difference, as do its columns and
-        indexes one by one (this is where the six witnesses fail: it is a per-object, computable check);
+        indexes one by one (a per-object, computable check; five of the eight witnesses fail here, one fails
+        (a) and two fail (c));
     (c) names do not collide: new_<t> is free and unreferenced, an index name of the desired schema is
         not used by another table of the database, AUTOINCREMENT columns of an existing table exist --
     SchemaDiff + PlanChanges produce a plan, the engine executes it without error, and the SchemaDiff of
@@ -30,8 +31,9 @@
     foreign keys and checks by structural conditions proved sufficient in Sqlite/ConvergeSyntactic.v).
     MISSING for the full statement: (1) the string-level part of condition (b) -- a default, a generated
     expression, an index or a check expression is unchanged by print + inspect -- stays a closed
-    computation per object rather than a grammar of expressions; unnamed foreign keys (at most one per
-    table converges) are covered by [C01_converges_supported] only; (2) inline UNIQUE constraints in the current database
+    computation per object rather than a grammar of expressions; foreign keys with an empty Symbol (at
+    most one per table converges; numeric symbols of an inspected desired state are ordinary names) are
+    covered by [C01_converges_supported] only; (2) inline UNIQUE constraints in the current database
     (refuted in general: C01_converges_refuted_drop_unique); (3) SQL text and SQLite itself: the engine
     is a model, tied to real go-sqlite3 by the correspondence stages. *)
 From Coq Require Import List NArith ZArith Bool Arith.
